@@ -1,6 +1,6 @@
 """Property -> rules registration."""
 from . import register
-from . import r1
+from . import r1, r2, r3, r3d, r4, r5, r6, r7, r8, r9, r10
 
 register(
     "C12",
@@ -39,7 +39,7 @@ register(
     "are dominated by the Ok edge of the parse result (failed parse writes nothing; nothing written before parsing), "
     "(R3e) the entry's cleaning flag is false only on paths the document-synchronisation handlers cannot reach. "
     "Does not decide equality with a freshly built index for every history.",
-    [r3.r3a_clean_before_append, r3.r3b_failure_path_readonly, r3.r3e_who_skips_cleaning],
+    [r3.r3a_clean_before_append, r3.r3b_failure_path_readonly, r3.r3e_who_skips_cleaning, r3.r3h_wrappers_always_analyse],
 )
 
 register(
@@ -70,7 +70,7 @@ register(
     "all writes followed by an increment; (R3d-iii) no memoised result depends on a &mut context parameter outside the "
     "key; (R3d-iv) no query is gated solely by membership in an evictable cache. Equality of warm and cold answers "
     "for every interleaving is not decided.",
-    [r3d.r3d_hit, r3d.r3d_bump, r3d.r3d_readset, r3d.r3d_memo_context, r3d.r3d_membership_gate],
+    [r3d.r3d_hit, r3d.r3d_stamp_origin, r3d.r3d_bump, r3d.r3d_readset, r3d.r3d_memo_context, r3d.r3d_membership_gate],
 )
 
 from . import r6
@@ -80,7 +80,7 @@ register(
     "Visitor-coverage clauses of index fidelity: (R6a) the yield-line visitor and the generator-status visitor descend "
     "into the same statement-list fields, (R6b) both cover every statement-list field of the AST type universe except "
     "nested scopes. Field values (names, scopes, dependency order, docstrings, usages from marks) are not decided.",
-    [r6.r6a_yield_siblings, r6.r6b_yield],
+    [r6.r6a_yield_siblings, r6.r6b_yield, r6.r6d_all_decorators],
 )
 
 register(
@@ -88,7 +88,7 @@ register(
     "Visitor-coverage clauses of undeclared-fixture precision: (R6b) the body visitors descend into every nested "
     "statement list, (R6c) every name-binding form of the language is read by the local-variable collector and all "
     "parameter kinds are enumerated. The quick-fix text edit is a string-value property and is not decided.",
-    [r6.r6b_body, r6.r6c_binding_forms],
+    [r6.r6b_body, r6.r6c_binding_forms, r10.r10i_no_textual_path_prefix, r3.r3h_wrappers_always_analyse],
 )
 
 from . import r5
@@ -99,7 +99,7 @@ register(
     "function with an exclusion-filter parameter and >= 3 selection sites) selects with a visibility test on the "
     "element; a stage that selects by name alone can return a definition that is not visible from the using file. "
     "That the cascade order and the conftest walk coincide with pytest for every layout is not decided.",
-    [r5.r5a_c01],
+    [r5.r5a_c01, r5.r5e_same_file_last],
 )
 
 register(
@@ -163,7 +163,7 @@ register(
     "configuration loader, each Diagnostic and each collector sits on the not-disabled edge of the gate with its own "
     "code; (R11a) in did_open/did_change the analysis is always followed by publishing for the same document. "
     "Equality of the last published set with the latest content for every history is not decided.",
-    [r8.r8a_diagnostic_codes, r8.r11a_analyze_then_publish],
+    [r8.r8a_diagnostic_codes, r8.r11a_analyze_then_publish, r2.r2e_canonical_read_keys],
 )
 
 register(
@@ -226,5 +226,5 @@ register(
     "str::find results) must not reach Position.character (UTF-16) unconverted, (R9b) the request's UTF-16 cursor "
     "column must not be compared with byte columns or used as a character index. Concrete token positions (off-by-one, "
     "range containment, duplicates) are value facts and are not decided.",
-    [r9.r9_bytes_to_utf16, r9.r9_utf16_vs_bytes],
+    [r9.r9_bytes_to_utf16, r9.r9_utf16_vs_bytes, r3d.r3d_stamp_origin],
 )
